@@ -120,6 +120,48 @@ def run(props=None, jobs=4, ids=None):
     return M, results
 
 
+def for_property(pid):
+    """thorough tier: apply every scripted mutation of this property (and the behaviour-preserving
+    edits that name it) to scratch copies of REPO and record whether the intended rule reports them.
+    Informational only: on a tree that was itself modified the patterns may be stale."""
+    M = [m for m in load_mutations() if m["prop"] == pid]
+    Bn = [dict(b, props=[pid]) for b in load_benign() if b.get("props") is None or pid in b["props"]]
+    jobs = int(os.environ.get("VERIF_JOBS", "6"))
+    q = queue.Queue()
+    for s_ in range(jobs):
+        q.put(s_)
+    res = {}
+
+    def wm(mu):
+        slot = q.get()
+        try:
+            return run_one(mu, slot)
+        finally:
+            q.put(slot)
+
+    def wb(bn):
+        slot = q.get()
+        try:
+            return run_benign(bn, slot)
+        finally:
+            q.put(slot)
+    with ThreadPoolExecutor(max_workers=jobs) as ex:
+        fm = list(ex.map(wm, M))
+        fb = list(ex.map(wb, Bn))
+    for s_ in range(jobs):
+        shutil.rmtree("/tmp/vstcache_%d" % s_, ignore_errors=True)
+    out = {"mutations": [], "benign_edits": []}
+    for m, (mid, r) in zip(M, fm):
+        out["mutations"].append({"id": mid, "rule": m["rule"], "file": m["file"], "status": r["status"], "reported_by": r.get("rules")})
+    for b, (bid, r) in zip(Bn, fb):
+        out["benign_edits"].append({"id": bid, "note": b.get("note"), "status": r["status"], "alarms": r.get("alarms") or None})
+    out["summary"] = "%d/%d scripted mutations reported by the intended rule; %d/%d behaviour-preserving edits silent" % (
+        sum(1 for x in out["mutations"] if x["status"] == "detected"), len(out["mutations"]),
+        sum(1 for x in out["benign_edits"] if x["status"] == "silent"), len(out["benign_edits"]))
+    print("rule self-test: " + out["summary"])
+    return out
+
+
 def main(prop, seed):
     props = [prop] if prop and prop.startswith("C") else None
     ids = prop.split(",") if prop and not prop.startswith("C") else None
